@@ -8,6 +8,9 @@ CHECKS = {
  "C18": dict(cat="proof", tech="Coq proof (all lengths/alignments/code paths) + differential run of jls_crc32c on SSE4.2, table and ASan builds",
    text="Theorems in coq/Properties_C18.v: the byte-wise table form, crc32cSlicingBy8 (every alignment), the SSE4.2/ARM instruction loops and the three header variants equal the bit-serial CRC-32C reference for every byte list; the 8x256 tables parsed from crc32c_sw.c equal the generator polynomial's. The binaries are tied to the model by running jls_crc32c/jls_crc32c_hdr (both CRC builds + ASan) against the extracted reference on every length 0..320 (thorough 0..4096) x 8 alignments x 4 patterns and more.",
    note="Trusted: Coq kernel + vm_compute, gen_constants.py (table probe), instruction semantics of crc32 (Intel SDM) as modelled, extraction + OCaml glue, C harness; crc32c_arm_neon.c modelled but not executed.", ref="5/C18"),
+ "C20": dict(cat="proof", tech="Coq proof over Q of the accumulator algebra (any sequence, any split/grouping, aliasing) + differential run of jls_statistics_* with rounding tolerance",
+   text="Theorems in coq/Properties_C20.v over exact rationals with the C's control flow (k=0 branches, statement order on a store for aliasing): add one-at-a-time, compute, and combine of any grouping all equal the exact (count, mean, sum of squared deviations, min, max); variance >= 0; min <= mean <= max; combine with an empty accumulator is the identity; the result may overwrite either operand. The binaries are tied to the model by running jls_statistics_reset/add/compute_f32/f64/combine/var on generated programs (9 sequence families, every split point, random grouping trees, all aliasings) on the plain and ASan builds: count/min/max exact, mean/variance within the stated rounding tolerance, aliasing and identity bit-exact.",
+   note="Partial by nature: binary64 rounding is measured against the exact model, not proved (largest observed error/tolerance ratio is recorded in the evidence). Trusted: Coq kernel, extraction, OCaml glue (double -> exact rational conversion), C harness.", ref="5/C20"),
 }
 
 def main():
